@@ -46,10 +46,10 @@ RULE = (
 )
 ASSUMPTIONS = [
     "unit spellings are restricted to exactly consistent definitional chains inside the planner's verified domain "
-    "D_ok (vf.domain), so the 1e-9 tolerance of DESIGN 2.9 (no lossy conversion) applies; spellings outside D_ok "
+    "D_ok (vf.domain), so a float-rounding tolerance applies (1e-12; DESIGN 2.9 first said 1e-9); spellings outside D_ok "
     "are dropped at set-up and reported",
     "frequency is treated as a power-like (k=1) dimension: the octave is a doubling of frequency (music.py)",
-    "a level is compared with tolerance 1e-9*max(|L|, (k/p)/|ln b|): the second term is what a 1e-9 relative "
+    "a level is compared with tolerance 1e-12*max(|L|, (k/p)/|ln b|): the second term is what a 1e-12 relative "
     "rounding of the quantity amounts to on the level scale (needed for levels near 0)",
     "the library's float base math.e stands for e; the oracle uses e to 50 digits (difference 1e-16)",
     "quantities whose exact level lies outside [-200,200] are outside the property's quantifier: counted as "
@@ -57,7 +57,7 @@ ASSUMPTIONS = [
     "OverflowError / non-finite / zero float results are counted as inconclusive (float-range), never as failures",
 ]
 
-TOL = Decimal("1e-9")
+TOL = Decimal("1e-12")
 CTX = Context(prec=50, rounding=ROUND_HALF_EVEN, Emin=-999999, Emax=999999)
 
 # ------------------------------------------------------------------ definitional tables
@@ -489,6 +489,9 @@ def _run_scenario(case, out):
         units = {n: c_m.Unit._by_name[n] for n in ("watt", "volt", "pascal", "ampere")}
         prefixes = {n: c_m.Prefix._by_name[n] for n in ("micro", "milli")}
         worlds = [("before-define", c_m, units, prefixes), ("after-define", c_m, units, prefixes)]
+    elif sc in ("offset-scale", "redeclared"):
+        _run_user_units(case, out, sc)
+        return
     else:
         out.invalid = True
         return
@@ -534,9 +537,90 @@ def _run_scenario(case, out):
     out.sample = {"scenario": sc}
 
 
+def _run_user_units(case, out, sc):
+    """quantities in units an application defines itself, in a fresh world:
+    (offset-scale) a unit made with Dimension.scale -- gauge pressure, a biased voltage -- whose
+    zero is not the zero of the quantity: the level is that of the absolute quantity;
+    (redeclared) a unit whose equivalence is declared again with another ratio between two
+    levels: the second level follows the new declaration."""
+    from ..world import World, shared_world
+
+    w2 = World(["si", "acoustics", "electronics"])
+    m = w2.m
+    U = m.Unit._by_name
+    logs = {"decibel": m.Decibel, "bel": m.Bel, "neper": m.Neper, "octave": m.Octave}
+    n = 0
+
+    def check(tag, what, lu, q, si_value, ref_si, k, b, pv):
+        """level of q (whose absolute SI value is si_value), back to a quantity, and equality"""
+        nonlocal n
+        try:
+            want = (k / pv) * math.log(si_value / ref_si) / math.log(b)
+            lvl = lu.level(q)
+            got = float(lvl.magnitude)
+            tol = 1e-9 * max(abs(want), (k / pv) / abs(math.log(b)))
+            if abs(got - want) > tol:
+                out.fail(f"C18:scenario:{tag}:q2l", f"{what}: level is {got!r}, definition gives {want!r}")
+            back = float(lvl.quantify().unprefixed().magnitude)
+            if abs(back - si_value) > 1e-9 * abs(si_value) and abs(got - want) <= tol:
+                out.fail(f"C18:scenario:{tag}:l2q", f"{what}: the level quantifies to {back!r} SI, the quantity is {si_value!r} SI")
+            again = float(lu.level(lvl.quantify().in_unit(q.unit)).magnitude)
+            if abs(again - want) > tol and abs(got - want) <= tol:
+                out.fail(f"C18:scenario:{tag}:roundtrip", f"{what}: level -> quantity in {q.unit} -> level gives {again!r}, definition {want!r}")
+            # approximately() takes its tolerance relative to the *reading*, which means nothing
+            # on a scale with its own zero: the equality clause is for ratio units only
+            e1, e2 = (True, True) if sc == "offset-scale" else (lvl == m.approximately(q, 1e-9), m.approximately(q, 1e-9) == lvl)
+            if not (e1 and e2) and abs(got - want) <= tol:
+                out.fail(f"C18:scenario:{tag}:eq", f"{what}: the level does not compare equal to the quantity it was taken of ({e1}, {e2})")
+            n += 1
+        except Exception as e:  # noqa
+            out.fail(f"C18:scenario:{tag}:raises:{type(e).__name__}@{core.innermost_frame(e)}", f"{what}: {type(e).__name__}: {e}")
+
+    try:
+        if sc == "offset-scale":
+            gauge = m.Pressure.scale(101325 * U["pascal"], "vf18 gauge pascal", "vfPag")
+            biased = m.Potential.scale(m.Quantity(2.5, U["volt"]), "vf18 biased volt", "vfVb")
+            table = [(gauge, "pascal", 2, 2e-5, "micro", 20, 101325.0, (50000, 0, -50000, 250000.5, 1)),
+                     (biased, "volt", 2, 1.0, "", 1, 2.5, (0, 1, -1.5, 10, 0.25))]
+            for unit, refname, k, ref_si, refp, refmag, zero, readings in table:
+                refunit = m.Prefix._by_name[refp] * U[refname] if refp else U[refname]
+                for lname, b, pv in SCENARIO_LOGS:
+                    lu = logs[lname][refmag * refunit]
+                    for r in readings:
+                        for pfx, pval in (("", 1.0), ("kilo", 1e3), ("milli", 1e-3)):
+                            u = m.Prefix._by_name[pfx] * unit if pfx else unit
+                            rr = r / pval
+                            check(sc, f"{rr!r} {u} re {refmag} {refunit} in {lname}", lu, m.Quantity(rr, u), r + zero, ref_si, k, b, pv)
+                            if len(out.failures) > 6:
+                                return
+        else:
+            lamp = m.Power.unit("vf18 lamp", "vflamp")
+            torr = m.Pressure.unit("vf18 torr", "vftorr")
+            for lname, b, pv in SCENARIO_LOGS:
+                lw = logs[lname][1 * U["watt"]]
+                lp = logs[lname][20 * (m.Prefix._by_name["micro"] * U["pascal"])]
+                for ratio_w, ratio_p in ((60, 133.3), (100, 101325 / 760), (40, 133.322368)):
+                    lamp.equals(ratio_w * U["watt"])
+                    torr.equals(ratio_p * U["pascal"])
+                    for mag in (2, 0.5):
+                        check(sc, f"{mag} lamp of {ratio_w} W in {lname}", lw, m.Quantity(mag, lamp), mag * ratio_w, 1.0, 1, b, pv)
+                        check(sc, f"{mag} kilo-lamp of {ratio_w} W in {lname}", lw, m.Quantity(mag, m.Prefix._by_name["kilo"] * lamp), mag * ratio_w * 1e3, 1.0, 1, b, pv)
+                        check(sc, f"{mag} torr of {ratio_p} Pa in {lname}", lp, m.Quantity(mag, torr), mag * ratio_p, 2e-5, 2, b, pv)
+                    if len(out.failures) > 6:
+                        return
+    finally:
+        shared_world()
+    out.classes.append(f"scenario:{sc}")
+    if n:
+        out.nontrivial = f"scenario|{sc}"
+        out.sample = {"scenario": sc, "levels_checked": n}
+
+
 def enumerate_cases(tier):
     yield {"sc": "arith"}
     yield {"sc": "after-define"}
+    yield {"sc": "offset-scale"}
+    yield {"sc": "redeclared"}
     for fam in ENUM_FAMILIES:
         for cls in sorted(TERMS):
             sp = TERMS[cls]
